@@ -208,3 +208,102 @@ func lockUnique(cur M) string {
 	}
 	return ""
 }
+
+// ---------------------------------------------------------------- C14: search oracle
+
+// sqlite LIKE: % any sequence, _ any char, ASCII case-insensitive, no escape
+func like(pat, s []rune) bool {
+	if len(pat) == 0 {
+		return len(s) == 0
+	}
+	switch pat[0] {
+	case '%':
+		if like(pat[1:], s) {
+			return true
+		}
+		return len(s) > 0 && like(pat, s[1:])
+	case '_':
+		return len(s) > 0 && like(pat[1:], s[1:])
+	}
+	if len(s) == 0 {
+		return false
+	}
+	lower := func(r rune) rune {
+		if r >= 'A' && r <= 'Z' {
+			return r + 32
+		}
+		return r
+	}
+	return lower(pat[0]) == lower(s[0]) && like(pat[1:], s[1:])
+}
+
+func pairs(v any) map[string]string {
+	out := map[string]string{}
+	l, _ := v.([]any)
+	for _, p := range l {
+		kv, _ := p.([]any)
+		if len(kv) == 2 {
+			out[str(kv[0])] = str(kv[1])
+		}
+	}
+	return out
+}
+
+// SearchPromises checks one promise search against the property, evaluated independently on the dump
+// taken before the batch (valid when the batch contains no write before the search): the result is
+// exactly the rows whose id matches the pattern, whose state is in the set, whose tags CONTAIN every
+// requested pair, below the cursor, newest first, first `limit`.
+func SearchPromises(db M, cmd M, got []M) string {
+	pat := []rune{}
+	for _, r := range str(cmd["id"]) {
+		if r == '*' {
+			r = '%'
+		}
+		pat = append(pat, r)
+	}
+	mask := int64(0)
+	sl, _ := cmd["states"].([]any)
+	for _, x := range sl {
+		mask |= num(x)
+	}
+	want := pairs(cmd["tags"])
+	limit := num(cmd["limit"])
+	var cursor *int64
+	if cmd["sortId"] != nil {
+		c := num(cmd["sortId"])
+		cursor = &c
+	}
+	all := rows(db, "promises")
+	exp := []M{}
+	for i := len(all) - 1; i >= 0; i-- {
+		r := all[i]
+		if cursor != nil && !(num(r["sortId"]) < *cursor) {
+			continue
+		}
+		if !like(pat, []rune(str(r["id"]))) || num(r["state"])&mask == 0 {
+			continue
+		}
+		have := pairs(r["tags"])
+		ok := true
+		for k, v := range want {
+			if hv, present := have[k]; !present || hv != v {
+				ok = false
+			}
+		}
+		if ok {
+			exp = append(exp, r)
+		}
+	}
+	if limit >= 0 && int64(len(exp)) > limit {
+		exp = exp[:limit]
+	}
+	if len(exp) != len(got) {
+		return fmt.Sprintf("search %v returned %d rows, the matching set (first %d, newest first) has %d", cmd, len(got), limit, len(exp))
+	}
+	for i := range exp {
+		if str(exp[i]["id"]) != str(got[i]["id"]) {
+			return fmt.Sprintf("search %v: row %d is %q, expected %q", cmd, i, str(got[i]["id"]), str(exp[i]["id"]))
+		}
+	}
+	return ""
+}
